@@ -695,6 +695,13 @@ def replay_oracles(ctx, rep):
     for f in unbuilt_state_hits(h, real):
         print("  ORACLE: build %d did not execute %s although %s" % (f["build"], f["target"], f["why"]))
         rc = 1
+    for f in pending_taint_misses(h, real):
+        print("  ORACLE: build %d did not execute %s although it was tainted and has not been executed successfully since" % (f["build"], f["target"]))
+        rc = 1
+    if set(h.get("tags", [])) & {"bincut", "spell"}:
+        for f in rebuilt_state_executions(h, real):
+            print("  ORACLE: build %d executed %s although the previous build left a result for exactly this state" % (f["build"], f["target"]))
+            rc = 1
     for n, l in interrupted_taints(h, real):
         print("  ORACLE: %s ran successfully in the interrupted build %d (a dependant was started) but is still tainted" % (l, n))
         rc = 1
